@@ -16,14 +16,14 @@ ctest --test-dir _build -j8 >>$LOG 2>&1 || { res "baseline tests FAIL with patch
 # run each doctest binary to count test cases
 TC=0; for t in _build/test_*; do [ -x $t ] && n=$($t 2>/dev/null | sed -n 's/.*test cases: *\([0-9]*\) | *\([0-9]*\) passed.*/\2/p' | tail -1) && TC=$((TC + ${n:-0})); done
 rundemo() {
-  if [ -f $SD/demo.cpp ]; then
+  if [ -f $SD/demo.cpp ] && [ ! -f $SD/demo.sh ]; then
     if grep -q "boost/mpi\|mpi.h" $SD/demo.cpp; then
       mpicxx -std=c++14 -O1 -w -DPARMCB_VERIF -I$WT/include -I$WT/_build/include $SD/demo.cpp -o $WT/_demo -ltbb -lboost_timer -lboost_mpi -lboost_serialization >>$LOG 2>&1 || return 99
       NP=$(sed -n 's/.*-n \([0-9]*\).*/\1/p' $SD/demo.cpp | head -1); NP=${NP:-2}
       timeout 600 mpiexec --allow-run-as-root --oversubscribe -n $NP $WT/_demo >>$LOG 2>&1
     else
       g++ -std=c++14 -O1 -w -DPARMCB_VERIF $(cat $SD/cxxflags 2>/dev/null) -I$WT/include -I$WT/_build/include $SD/demo.cpp -o $WT/_demo -ltbb -lboost_timer -lboost_program_options -lboost_thread >>$LOG 2>&1 || return 99
-      (cd $WT && timeout 900 ./_demo) >>$LOG 2>&1
+      (cd $WT && WT=$WT timeout 900 ./_demo) >>$LOG 2>&1
     fi
   else
     (cd $WT && WT=$WT timeout 900 bash $SD/demo.sh $WT) >>$LOG 2>&1
@@ -31,7 +31,7 @@ rundemo() {
 }
 rundemo; A=$?
 git apply -R $SD/patch.diff >>$LOG 2>&1
-[ -f $SD/demo.sh ] && (cmake --build _build -j8) >>$LOG 2>&1
+(cmake --build _build -j8) >>$LOG 2>&1    # programs under _build may be what the demonstration runs
 rundemo; B=$?
 cleanup
 if [ $A -ne 0 ] && [ $A -ne 99 ] && [ $B -eq 0 ]; then res "CONFIRMED tests_pass=$TC demo_with_patch=exit$A demo_without=exit$B"; exit 0; fi
